@@ -77,11 +77,16 @@ def run(ctx):
         counts = list(pool.map(one, insts))
     design["terms"] = sum(counts)
     design["instances"] = ["level %d %s %d: %d terms" % (l, "seeds from" if l == 3 else "slice", k, c) for (l, k), c in zip(insts, counts)]
-    for g in ("alt", "brace", "zero", "empty", "prefix", "octal", "flag", "range", "combine", "comma", "lazyrep", "rangedash"):
+    guards = ("alt", "brace", "zero", "empty", "prefix", "octal", "flag", "range", "combine", "comma", "lazyrep", "rangedash")
+
+    def whatif(g):
         w = dict(SOUND)
         w[g] = "FALSE"
-        r2 = ctx.tlc("Regex", cfg_text=cfg(0, w), workers=8, timeout=900, expect="violation")
-        design["whatif_no_" + g] = r2.violated
+        open(os.path.join(d, "whatif_%s.cfg" % g), "w").write(cfg(0, w))
+        return ctx.tlc("Regex", cfg="whatif_%s.cfg" % g, workers=4, timeout=900, expect="violation").violated
+    with concurrent.futures.ThreadPoolExecutor(max_workers=4) as pool:
+        for g, v in zip(guards, pool.map(whatif, guards)):
+            design["whatif_no_" + g] = v
     states = []
     for level, sl in insts:
         states += [s for s in vlib.parse_dump(ctx.spec_path("regex_l%ds%d.dump" % (level, sl))) if s["ncap"] != -1]
